@@ -28,10 +28,11 @@ CHECKS["C12"] = dict(
     level="model_checking", engine="E-HIST",
     technique="explicit-state model checking of the implementation: every API history up to a depth bound executed on the real exporter in lockstep with a reference state machine",
     level_text="All operation histories over an 11-operation alphabet (storable/unstorable records, repeated address-event keys, explicit block writes, rotation, parameter switches incl. an out-of-range one) up to the depth bound are executed on the real CdnsExporter for 24 configurations; after every step return-value sign and all counters are compared with the reference model, at the end every output is parsed independently and compared block by block (sizes, order, conservation).",
-    level_note="Trusted: harness/model.hpp (reference state machine), ref/ parser. Histories deeper than the bound and max_block_items > 3 are outside the claim (the block-full rule only compares three sizes with the maximum).",
-    stages=[dict(harness="hist", variant="plain", args=["--mode", "flush"], require=["blocks_validated"])],
+    level_note="Trusted: harness/model.hpp (reference state machine), ref/ parser. The BFS merges two histories only if the reference-model state AND a digest of the exporter's / block's private members agree (the encoder's fill level and staged bytes are left out of the key: C06 shows the encoder is position independent; block counter and AEC counts saturate at 2); every transition is executed on a fresh real exporter and fully checked before de-duplication, so merging only prunes extensions. max_block_items > 3 and record shapes outside the pool are outside the claim.",
+    stages=[dict(harness="hist", variant="plain", args=["--mode", "flush"], require=["blocks_validated"]),
+            dict(harness="hist", variant="plain", args=["--mode", "flush", "--bfs", "30", "--abstract", "1"], prefix="bfs_", require=["bfs_fixpoints"])],
     rule="stateless DFS: for each of 24 configurations (max_block_items {0,1,2,3}x{1,2}, hints {all, AEC+MM off, QR time/port only}) every history of length 0..D over the alphabet; a history is non-trivial if it has >= 1 operation; each is distinct by construction",
-    bound_quick="every history of length <= 5 (11^5 per configuration)", bound_thorough="every history of length <= 6",
+    bound_quick="stateless: every history of length <= 5 (11^5 per configuration); BFS with state de-duplication: run to the fixpoint of the abstract state space in all 24 configurations (deepest new state at depth 13, bound 30)", bound_thorough="stateless: every history of length <= 6; BFS: same fixpoint",
     assumptions=["the reference model (harness/model.hpp) states the intended buffering contract", "record contents are drawn from a fixed pool (7 QR, 3 AEC, 4 MM shapes)"],
 )
 
@@ -45,7 +46,9 @@ CHECKS["C13"] = dict(
     stages=[dict(harness="hist", variant="plain", args=["--mode", "rotate"]),
             dict(harness="hist", variant="plain", args=["--mode", "rotate-gz"], prefix="gz_"),
             dict(harness="hist", variant="plain", args=["--mode", "rotate-xz"], prefix="xz_"),
-            dict(harness="val", variant="asan", args=["--mode", "align"], prefix="align_")],
+            dict(harness="val", variant="asan", args=["--mode", "align"], prefix="align_"),
+            dict(harness="hist", variant="plain", args=["--mode", "rotate", "--bfs", "8", "--abstract", "1"], prefix="bfs_", tiers=("quick",)),
+            dict(harness="hist", variant="plain", args=["--mode", "rotate", "--bfs", "10", "--abstract", "1"], prefix="bfs_", tiers=("thorough",))],
     rule="stateless DFS over an 11-operation alphabet x 2 configurations x {named file, descriptor} x {plain, gzip, xz}; every history of length 0..D; non-trivial = at least one operation",
     bound_quick="plain: length <= 4; gzip: <= 3; xz: <= 2", bound_thorough="plain: length <= 5; gzip: <= 4; xz: <= 3",
     assumptions=["name-created exporters are rotated to names, descriptor-created ones to descriptors (DESIGN 8.2)", "files live on tmpfs (/dev/shm)"],
@@ -71,7 +74,9 @@ CHECKS["C02"] = dict(
     level_note=_HIST_NOTE,
     stages=[dict(harness="hist", variant="plain", args=["--mode", "wellformed"]),
             dict(harness="blk", variant="asan", args=["--mode", "direct"], prefix="direct_"),
-            dict(harness="val", variant="asan", args=["--mode", "align"], prefix="align_")],
+            dict(harness="val", variant="asan", args=["--mode", "align"], prefix="align_"),
+            dict(harness="hist", variant="plain", args=["--mode", "wellformed", "--bfs", "7", "--abstract", "1"], prefix="bfs_", tiers=("quick",)),
+            dict(harness="hist", variant="plain", args=["--mode", "wellformed", "--bfs", "9", "--abstract", "1"], prefix="bfs_", tiers=("thorough",))],
     rule="stateless DFS over 13 operations incl. BlockStatistics() (present but empty) on QR/AEC/MM calls, unstorable records, rotations, parameter-set additions x 3 configurations (max_block_items 0/2/10000)",
     bound_quick="length <= 4", bound_thorough="length <= 5",
     assumptions=["CDDL '+' (non-empty) cardinalities are not enforced (DESIGN 8.2)"],
